@@ -14,9 +14,10 @@ COMPOSITE = 'api = "0.10"\n\n[buildpack]\nid = "%s"\nversion = "0.1.0"\n\n[[orde
 FIXTURE = {"fixtures/app/index.txt": "hello", "fixtures/app/sub/file": "x", "Cargo.toml": "[package]\nname = \"fixturecrate\"\nversion = \"0.0.0\"\nedition = \"2021\"\n\n[workspace]\n", "src/lib.rs": "",
            # the crate under test is itself a (composite) buildpack, and its workspace holds a second one that depends on it: both can be
            # packaged by libcnb-test without compiling anything
-           "buildpack.toml": COMPOSITE % ("vp/meta", "heroku/procfile"), "package.toml": '[buildpack]\nuri = "."\n\n[[dependencies]]\nuri = "docker://docker.io/heroku/procfile-cnb:2.0.1"\n',
-           "meta2/buildpack.toml": COMPOSITE % ("vp/meta2", "vp/meta"), "meta2/package.toml": '[buildpack]\nuri = "."\n\n[[dependencies]]\nuri = "libcnb:vp/meta"\n'}
-LOCAL_REFS = [["@crate"], ["@ws:vp/meta2", "heroku/procfile"], ["@ws:vp/meta", "@crate"]]
+           # (the crate's own buildpack depends on the other one: packaging it means packaging both, dependency first)
+           "buildpack.toml": COMPOSITE % ("vp/meta2", "vp/meta"), "package.toml": '[buildpack]\nuri = "."\n\n[[dependencies]]\nuri = "libcnb:vp/meta"\n\n[[dependencies]]\nuri = "docker://docker.io/heroku/procfile-cnb:2.0.1"\n',
+           "meta/buildpack.toml": COMPOSITE % ("vp/meta", "heroku/procfile"), "meta/package.toml": '[buildpack]\nuri = "."\n\n[[dependencies]]\nuri = "docker://docker.io/heroku/procfile-cnb:2.0.1"\n'}
+LOCAL_REFS = [["@crate"], ["@ws:vp/meta", "heroku/procfile"], ["@ws:vp/meta2", "@crate"]]
 CONTAINER_OPS = [{"op": "logs_now"}, {"op": "address_for_port", "port": 8080}, {"op": "shell_exec", "command": "ps"}, {"op": "logs_wait"}]
 CCONF = {"entrypoint": "web", "command": ["--serve"], "env": [["PORT", "8080"]], "ports": [8080, 9090], "mounts": []}
 
